@@ -36,6 +36,10 @@ def configs(tier):
                         continue
                     out.append(dict(kind='const', spec=sp, V=V, safe=safe, route=route, grid='u5',
                                     bound=3 if (tier == 'thorough' or (route == 'sim' and not safe)) else 2))
+    # the same time values as a strided view / a table column (gaps hold other plausible times)
+    for sp in nets[:6]:
+        out.append(dict(kind='const', spec=sp, V=2, safe=False, route='sim', grid='u5', bound=2, times_repr='strided'))
+        out.append(dict(kind='const', spec=sp, V=0.5, safe=True, route='entry', grid='u5', bound=2, times_repr='column'))
     # growth and division
     grids = ['u5', 'u9e'] if tier == 'quick' else ['u5', 'u4h', 'u9e', 'u9']
     for sp in growth_models():
@@ -45,6 +49,8 @@ def configs(tier):
                     if t0 and (tier == 'quick' and g != 'u5'):
                         continue
                     out.append(dict(kind='growth', spec=sp, grid=g, vol=vol, safe=False, t0=t0, bound=2))
+                    if g == 'u5' and t0 == 0.0 and vol.get('z') in (None, -1.0):
+                        out.append(dict(kind='growth', spec=sp, grid=g, vol=vol, safe=False, t0=t0, bound=2, times_repr='strided'))
                     # a grid whose first point lies after the interface's initial time (the volume grows from the initial time on)
                     # The lead is a whole number of volume steps (the oracles place volume steps on grid times) and short enough for
                     # every division of the alphabet to fall inside the grid: a cell that divides before the first requested time is
@@ -111,6 +117,7 @@ def run_config(c, cfg):
     times = [t0 + cfg.get('lead', 0.0) + t for t in TIMES[cfg['grid']]]
     vdt = times[1] - times[0]
     impl = e1.Impl(sp, cfg['safe'])
+    impl.times_repr = cfg.get('times_repr', 'plain')
     net = RS.Net(sp, 'stochvol', cfg['safe'])
     states, outcomes = set(), set()
     first = [True]
@@ -134,7 +141,7 @@ def run_config(c, cfg):
                     Vx = np.int64(int(Vx))
                 elif k_ == 3:
                     Vx = np.float32(Vx)            # 0.25, 0.5, 2 and 4 are exact in single precision
-                res = py_simulate_model(np.array(times), Model=impl.model, stochastic=True, safe=cfg['safe'], volume=Vx,
+                res = py_simulate_model(impl.grid(times), Model=impl.model, stochastic=True, safe=cfg['safe'], volume=Vx,
                                         return_dataframe=False)
             return dict(rows=impl.rows(res.py_get_result()), consumed=st.consumed, overrun=st.overrun,
                         vols=[float(z) for z in res.py_get_volume()], divided=bool(res.py_cell_divided()),
